@@ -272,10 +272,15 @@ pub struct Ctx {
     pub deadline: Instant,
     pub bitmap: Arc<Bitmap>,
     pub vacuity: Vec<String>,
+    /// classification keys listed as known findings for this property (never stop a run early)
+    pub known_keys: Vec<String>,
+    pub stopped_early: Option<String>,
     verif_dir: String,
 }
 
 pub const CASE_TIMEOUT_MS: u64 = 20_000;
+/// occurrences of not-known violation classes on one worker after which a space is abandoned
+pub const EARLY_STOP_OCCURRENCES: u64 = 2_000;
 
 impl Ctx {
     pub fn new(prop: &'static str, tier: Tier, seed: u64, replay: Option<(String, u64)>, verif_dir: &str) -> Ctx {
@@ -307,6 +312,8 @@ impl Ctx {
             deadline: now + Duration::from_secs(cap_s),
             bitmap,
             vacuity: Vec::new(),
+            known_keys: Vec::new(),
+            stopped_early: None,
             verif_dir: verif_dir.to_string(),
         }
     }
@@ -369,6 +376,8 @@ impl Ctx {
         let next = AtomicU64::new(0);
         let done = AtomicU64::new(0);
         let stop = AtomicBool::new(false);
+        let early = AtomicBool::new(false);
+        let known_keys = &self.known_keys;
         let threads = self.threads.min(len as usize).max(1);
         let chunk = (len / (threads as u64 * 16)).clamp(1, 8192);
         let sample_at = [0u64, len / 2, len - 1];
@@ -382,6 +391,7 @@ impl Ctx {
                 let next = &next;
                 let done = &done;
                 let stop = &stop;
+                let early = &early;
                 let bitmap = bitmap.clone();
                 hs.push(s.spawn(move || {
                     guard::set_worker(t);
@@ -412,30 +422,43 @@ impl Ctx {
                                 l.subject_panic("uncaught", &pi, || format!("{}[{}]", name, idx));
                             }
                             if l.violations.len() > nviol {
-                                // A new class of violation: re-execute the case and demand the same verdict.
+                                // A new class of violation: re-execute the case and demand the same verdict
+                                // (same classification key). The one uncontrolled choice in the subject is
+                                // FirBuilder's per-instance HashMap order, so a verdict that depends on it may
+                                // need more than one re-execution to show again; never showing again in 8
+                                // attempts means the harness does not own its nondeterminism.
                                 let newkeys: Vec<String> = l.violations.keys().filter(|k| !before.contains(k)).cloned().collect();
-                                let mut l2 = Local::new(l.bitmap.clone(), seed, tier, false);
-                                l2.cur_space = name.to_string();
-                                l2.cur_idx = idx;
-                                guard::crumb_begin(sid, idx);
-                                let r2 = guard::catch(|| f(idx, &mut l2));
-                                guard::crumb_end();
-                                if let Err(pi) = r2 {
-                                    l2.subject_panic("uncaught", &pi, || format!("{}[{}]", name, idx));
-                                }
-                                for k in newkeys {
-                                    let a = l.violations.get(&k).map(|v| v.detail.clone());
-                                    let b = l2.violations.get(&k).map(|v| v.detail.clone());
-                                    if a != b {
-                                        machinery_failure(&format!(
-                                            "non-deterministic verdict for {}[{}] key {}: first {:?}, second {:?}",
-                                            name, idx, k, a, b
-                                        ));
+                                let mut missing = newkeys.clone();
+                                for _attempt in 0..8 {
+                                    let mut l2 = Local::new(l.bitmap.clone(), seed, tier, false);
+                                    l2.cur_space = name.to_string();
+                                    l2.cur_idx = idx;
+                                    guard::crumb_begin(sid, idx);
+                                    let r2 = guard::catch(|| f(idx, &mut l2));
+                                    guard::crumb_end();
+                                    if let Err(pi) = r2 {
+                                        l2.subject_panic("uncaught", &pi, || format!("{}[{}]", name, idx));
                                     }
+                                    missing.retain(|k| !l2.violations.contains_key(k));
+                                    if missing.is_empty() {
+                                        break;
+                                    }
+                                }
+                                if !missing.is_empty() {
+                                    machinery_failure(&format!("non-deterministic verdict for {}[{}]: {:?} was reported once and not again in 8 re-executions", name, idx, missing));
                                 }
                             }
                         }
                         done.fetch_add(end - start, Relaxed);
+                        // Once a violation class that is not a listed known finding has been seen
+                        // often enough, finishing the space adds nothing: stop and report.
+                        if !l.violations.is_empty() {
+                            let n: u64 = l.violations.iter().filter(|(k, _)| !known_keys.contains(k)).map(|(_, v)| v.count).sum();
+                            if n >= EARLY_STOP_OCCURRENCES {
+                                early.store(true, Relaxed);
+                                stop.store(true, Relaxed);
+                            }
+                        }
                     }
                     guard::set_worker(guard::NOT_A_WORKER);
                     l
@@ -447,7 +470,16 @@ impl Ctx {
             self.total.merge_from(l);
         }
         let d = done.load(Relaxed);
-        if d < len && self.capped.is_none() {
+        if early.load(Relaxed) {
+            if self.stopped_early.is_none() {
+                self.stopped_early = Some(format!("space {} abandoned after {} of {} cases: a violation class had already occurred {}+ times on one worker", name, d, len, EARLY_STOP_OCCURRENCES));
+            }
+            // later spaces are skipped as well: the verdict is already a violation
+            self.deadline = Instant::now();
+            if self.capped.is_none() {
+                self.capped = self.stopped_early.clone();
+            }
+        } else if d < len && self.capped.is_none() {
             self.capped = Some(format!("wall-clock cap reached inside space {} after {} of {} cases", name, d, len));
         }
         self.spaces.push(SpaceReport { name: name.to_string(), len, done: d, wall_s: t0.elapsed().as_secs_f64() });
